@@ -343,6 +343,15 @@ class BuildFileImpl {
         static_cast<llvm::yaml::ScalarNode*>(node)) == name;
   }
 
+  /// Check that the key and the value of a mapping entry exist. Once its
+  /// scanner has failed, the YAML parser hands out null nodes.
+  bool checkEntry(llvm::yaml::KeyValueNode& entry) {
+    if (entry.getKey() && entry.getValue())
+      return true;
+    error("unable to parse the build file (malformed YAML)");
+    return false;
+  }
+
   Tool* getOrCreateTool(StringRef name, llvm::yaml::Node* forNode) {
     // First, check the map.
     auto it = tools.find(name);
@@ -390,6 +399,8 @@ class BuildFileImpl {
       error(node, "expected initial mapping key 'client'");
       return false;
     }
+    if (!checkEntry(*it))
+      return false;
     if (!nodeIsScalarString(it->getKey(), "client")) {
       error(it->getKey(), "expected initial mapping key 'client'");
       return false;
@@ -405,6 +416,8 @@ class BuildFileImpl {
       return false;
     }
     ++it;
+    if (it != mapping->end() && !checkEntry(*it))
+      return false;
 
     // Parse the tools mapping, if present.
     if (it != mapping->end() && nodeIsScalarString(it->getKey(), "tools")) {
@@ -418,6 +431,8 @@ class BuildFileImpl {
         return false;
       }
       ++it;
+      if (it != mapping->end() && !checkEntry(*it))
+        return false;
     }
 
     // Parse the targets mapping, if present.
@@ -432,6 +447,8 @@ class BuildFileImpl {
         return false;
       }
       ++it;
+      if (it != mapping->end() && !checkEntry(*it))
+        return false;
     }
 
     // Parse the default target, if present.
@@ -446,6 +463,8 @@ class BuildFileImpl {
         return false;
       }
       ++it;
+      if (it != mapping->end() && !checkEntry(*it))
+        return false;
     }
 
     // Parse the nodes mapping, if present.
@@ -460,6 +479,8 @@ class BuildFileImpl {
         return false;
       }
       ++it;
+      if (it != mapping->end() && !checkEntry(*it))
+        return false;
     }
 
     // Parse the commands mapping, if present.
@@ -474,6 +495,8 @@ class BuildFileImpl {
         return false;
       }
       ++it;
+      if (it != mapping->end() && !checkEntry(*it))
+        return false;
     }
 
     // There shouldn't be any trailing sections.
@@ -492,6 +515,8 @@ class BuildFileImpl {
     property_list_type properties;
 
     for (auto& entry: *map) {
+      if (!checkEntry(entry))
+        return false;
       // All keys and values must be scalar.
       if (entry.getKey()->getType() != llvm::yaml::Node::NK_Scalar) {
         error(entry.getKey(), "invalid key type in 'client' map");
@@ -532,6 +557,8 @@ class BuildFileImpl {
 
   bool parseToolsMapping(llvm::yaml::MappingNode* map) {
     for (auto& entry: *map) {
+      if (!checkEntry(entry))
+        return false;
       // Every key must be scalar.
       if (entry.getKey()->getType() != llvm::yaml::Node::NK_Scalar) {
         error(entry.getKey(), "invalid key type in 'tools' map");
@@ -556,6 +583,8 @@ class BuildFileImpl {
 
       // Configure all of the tool attributes.
       for (auto& valueEntry: *attrs) {
+        if (!checkEntry(valueEntry))
+          return false;
         auto key = valueEntry.getKey();
         auto value = valueEntry.getValue();
         
@@ -572,6 +601,8 @@ class BuildFileImpl {
         if (value->getType() == llvm::yaml::Node::NK_Mapping) {
           std::vector<std::pair<std::string, std::string>> values;
           for (auto& entry: *static_cast<llvm::yaml::MappingNode*>(value)) {
+            if (!checkEntry(entry))
+              return false;
             // Every key must be scalar.
             if (entry.getKey()->getType() != llvm::yaml::Node::NK_Scalar) {
               error(entry.getKey(), ("invalid key type for '" + attribute +
@@ -636,6 +667,8 @@ class BuildFileImpl {
   
   bool parseTargetsMapping(llvm::yaml::MappingNode* map) {
     for (auto& entry: *map) {
+      if (!checkEntry(entry))
+        return false;
       // Every key must be scalar.
       if (entry.getKey()->getType() != llvm::yaml::Node::NK_Scalar) {
         error(entry.getKey(), "invalid key type in 'targets' map");
@@ -696,6 +729,8 @@ class BuildFileImpl {
 
   bool parseNodesMapping(llvm::yaml::MappingNode* map) {
     for (auto& entry: *map) {
+      if (!checkEntry(entry))
+        return false;
       // Every key must be scalar.
       if (entry.getKey()->getType() != llvm::yaml::Node::NK_Scalar) {
         error(entry.getKey(), "invalid key type in 'nodes' map");
@@ -720,6 +755,8 @@ class BuildFileImpl {
 
       // Configure all of the tool attributes.
       for (auto& valueEntry: *attrs) {
+        if (!checkEntry(valueEntry))
+          return false;
         auto key = valueEntry.getKey();
         auto value = valueEntry.getValue();
         
@@ -735,6 +772,8 @@ class BuildFileImpl {
         if (value->getType() == llvm::yaml::Node::NK_Mapping) {
           std::vector<std::pair<std::string, std::string>> values;
           for (auto& entry: *static_cast<llvm::yaml::MappingNode*>(value)) {
+            if (!checkEntry(entry))
+              return false;
             // Every key must be scalar.
             if (entry.getKey()->getType() != llvm::yaml::Node::NK_Scalar) {
               error(entry.getKey(), ("invalid key type for '" + attribute +
@@ -799,6 +838,8 @@ class BuildFileImpl {
 
   bool parseCommandsMapping(llvm::yaml::MappingNode* map) {
     for (auto& entry: *map) {
+      if (!checkEntry(entry))
+        return false;
       // Every key must be scalar.
       if (entry.getKey()->getType() != llvm::yaml::Node::NK_Scalar) {
         error(entry.getKey(), "invalid key type in 'commands' map");
@@ -828,6 +869,8 @@ class BuildFileImpl {
               "missing 'tool' key for command in 'command' map");
         continue;
       }
+      if (!checkEntry(*it))
+        return false;
       if (!nodeIsScalarString(it->getKey(), "tool")) {
         error(it->getKey(),
               "expected 'tool' initial key for command in 'commands' map");
@@ -863,6 +906,8 @@ class BuildFileImpl {
       // Parse the remaining command attributes.
       ++it;
       for (; it != attrs->end(); ++it) {
+        if (!checkEntry(*it))
+          return false;
         auto key = it->getKey();
         auto value = it->getValue();
         
@@ -942,6 +987,8 @@ class BuildFileImpl {
           if (value->getType() == llvm::yaml::Node::NK_Mapping) {
             std::vector<std::pair<std::string, std::string>> values;
             for (auto& entry: *static_cast<llvm::yaml::MappingNode*>(value)) {
+              if (!checkEntry(entry))
+                return false;
               // Every key must be scalar.
               if (entry.getKey()->getType() != llvm::yaml::Node::NK_Scalar) {
                 error(entry.getKey(), ("invalid key type for '" + attribute +
@@ -1059,7 +1106,10 @@ public:
     }
 
     if (++it != stream.end()) {
-      error(it->getRoot(), "unexpected additional document in stream");
+      if (auto extra = it->getRoot())
+        error(extra, "unexpected additional document in stream");
+      else
+        error("unexpected additional document in stream");
       return nullptr;
     }
 
